@@ -400,6 +400,44 @@ func run(r *mon.Run) {
 			}
 		}
 	}
+	// several defects at once: the same field of EVERY response / index entry overridden in one file (a reader that
+	// handles one bad response may still go wrong - or never come back - when there are several)
+	{
+		var exs []rbundle.BExchange
+		for k := 0; k < 6; k++ {
+			exs = append(exs, rbundle.BExchange{URL: fmt.Sprintf("https://example.com/r%d", k), Status: "200", Headers: []rbundle.BHeader{{Name: "content-type", Value: "text/plain"}}, Body: []byte(fmt.Sprintf("body %d", k))})
+		}
+		for _, ver := range []string{"b1", "b2"} {
+			spec := &rbundle.BSpec{Version: ver, Primary: "https://example.com/r0", Exchanges: exs}
+			pristine, fields := spec.Build(nil)
+			for _, base := range []string{"resp-array2", "hdr-map", "resp-hdr-bstr", "resp-body-bstr", "hdr-val", "hdr-name", "index-off", "index-len", "index-valarray"} {
+				for _, which := range []string{"all", "two", "all-but-first"} {
+					for _, val := range []uint64{0, 1, 3, uint64(len(pristine)), 1 << 32, 1 << 63, ^uint64(0)} {
+						if !mine() {
+							continue
+						}
+						ov := map[string]rbundle.Ov{}
+						n := 0
+						for _, f := range fields {
+							if !strings.HasPrefix(f.Role, base+"[") {
+								continue
+							}
+							n++
+							if which == "two" && n > 2 || which == "all-but-first" && n == 1 {
+								continue
+							}
+							ov[f.Role] = rbundle.Ov{Val: val, Info: -1}
+						}
+						if len(ov) < 2 {
+							continue
+						}
+						x, _ := spec.Build(ov)
+						readBundle(fmt.Sprintf("multi-override/%s/%s(%s)=2^%d", ver, base, which, bits(val)), x)
+					}
+				}
+			}
+		}
+	}
 	// hostile readers
 	for i, s := range bundleSeeds[:2] {
 		for _, mode := range []string{"one-byte", "short-reads", "eof-with-data"} {
